@@ -1,4 +1,4 @@
-import Autog.Properties.C16
+import Autog.Lemmas.ScaleBase
 import Autog.Properties.C03
 import Autog.Model.Phase5
 /-! # C17 — unit independence (scale equivariance)
@@ -15,44 +15,6 @@ import Autog.Model.Phase5
 
 namespace Autog
 open Phase4Simple
-
-/-- all sizes and coordinates of the nodes, and the layer sizes, multiplied by c -/
-def scaleG (c : Rat) (g : G) : G :=
-  { g with nodes := g.nodes.map fun n => { n with x := c * n.x, y := c * n.y, w := c * n.w, h := c * n.h },
-           layers := g.layers.map fun l => { l with w := c * l.w, h := c * l.h } }
-
-theorem scaleG_node_w (c : Rat) (g : G) (n : Nat) : ((scaleG c g).node n).w = c * (g.node n).w := by
-  simp only [scaleG, G.node, Array.getD_eq_getD_getElem?, Array.getElem?_map]
-  cases g.nodes[n]? with
-  | none => simp [default, instInhabitedNode.default]
-  | some nd => simp
-
-theorem widthsOf_scaleG (c : Rat) (g : G) (l : Layer) (l' : Layer) (hn : l'.nodes = l.nodes) :
-    widthsOf (scaleG c g) l' = (widthsOf g l).map (c * ·) := by
-  simp [widthsOf, hn, scaleG_node_w, List.map_map, Function.comp]
-
-theorem maxRat_scale (a b c : Rat) (hc : 0 < c) : maxRat (c * a) (c * b) = c * maxRat a b := by
-  unfold maxRat
-  by_cases h : a ≤ b
-  · have : c * a ≤ c * b := Rat.mul_le_mul_of_nonneg_left h (Rat.le_of_lt hc)
-    simp [h, this]
-  · have h' : b < a := Rat.not_le.1 h
-    have : ¬ c * a ≤ c * b := by
-      intro hle
-      have := (lt_scale b a c hc).2 h'
-      exact absurd hle (Rat.not_le.2 this)
-    simp [h, this]
-
-theorem foldl_maxRat_scale (c : Rat) (hc : 0 < c) : ∀ (l : List Rat) (d : Rat),
-    (l.map (c * ·)).foldl maxRat (c * d) = c * l.foldl maxRat d
-  | [], _ => rfl
-  | x :: l, d => by
-    simp only [List.map_cons, List.foldl_cons, maxRat_scale _ _ _ hc]
-    exact foldl_maxRat_scale c hc l _
-
-theorem scaleG_layers_nodes (c : Rat) (g : G) :
-    (scaleG c g).layers.toList.map (·.nodes) = g.layers.toList.map (·.nodes) := by
-  simp [scaleG, List.map_map, Function.comp]
 
 theorem maxLayerW_scale (c ns : Rat) (hc : 0 < c) (g : G) : maxLayerW (c * ns) (scaleG c g) = c * maxLayerW ns g := by
   unfold maxLayerW
@@ -231,13 +193,6 @@ theorem C17_orthoPoints_scale (c ls layerh : Rat) (g : G) : ∀ (ns : List Nat),
   | [_] => rfl
   | a :: b :: rest => by
     simp only [orthoPoints, List.map_append, C17_orthoGroup_scale, C17_orthoPoints_scale c ls layerh g (b :: rest)]
-
-theorem rat_mul_cancel (a b c : Rat) (hc : 0 < c) (he : c * a = c * b) : a = b := by
-  have h1 : c * (a - b) = 0 := by grind
-  have hc0 : c ≠ 0 := fun e => by rw [e] at hc; exact absurd hc (by decide)
-  rcases Rat.mul_eq_zero.1 h1 with h | h
-  · exact absurd h hc0
-  · grind
 
 /-- the Ortho router's "vertically aligned" test does not depend on the unit -/
 theorem C17_aligned_scale (c : Rat) (hc : 0 < c) (g : G) (a b : Nat) :
